@@ -316,7 +316,7 @@ def gen_scenarios(rng, kinds, n, persistence):
                 continue
             sc.update(base=[(x["B"], x["A"]) for x in c["base"]])
         else:
-            ranks = [rng.choice([0, 0, 1, 2, 3, 4]) for _ in range(nw)]
+            ranks = [rng.choice([0, 0, 1, 2, 3, 4]) for _ in range(nw)] if rng.random() < 0.7 else [rng.choice([0, 2, 9, 10, 11, 30]) for _ in range(nw)]
             sc["custom"] = ranks
         sc["ops"] = gen_ops(rng, sig, nw, rng.choice([4, 6, 8]), persistence)
         out.append(sc)
@@ -411,7 +411,9 @@ def run_laws(chk: Check, tier, rng):
     for n, cnt in ((3, 300 if tier == "quick" else 20000), (4, 60 if tier == "quick" else 5000), (5, 0 if tier == "quick" else 800), (6, 0 if tier == "quick" else 150)):
         sig = infer.SIG[:n] if n <= 5 else infer.SIG + ["f"]
         for i in range(cnt):
-            if i % 2:
+            if i % 4 == 3:  # large ranks with gaps (two-digit values next to one-digit ones)
+                kap = [rng.choice([0, 1, 2, 5, 9, 10, 11, 20, 100]) for _ in range(1 << n)]
+            elif i % 2:
                 kap = [rng.randrange(5) for _ in range(1 << n)]
             else:  # asymmetric by construction: rank depends on the atoms with distinct weights
                 wts = [rng.choice([0, 1, 2, 3, 5]) for _ in range(n)]
